@@ -21,7 +21,7 @@ func isIntrinsic(key string) bool {
 	if strings.HasPrefix(key, "sync.") || strings.HasPrefix(key, "atomic.") {
 		return true
 	}
-	if isCallbackIteration(key) {
+	if isCallbackIteration(key) || isLruKey(key) {
 		return true
 	}
 	switch key {
@@ -32,6 +32,7 @@ func isIntrinsic(key string) bool {
 }
 
 func intrinsicWrites(key string, ws *writeSet) {
+	lruWrites(key, ws)
 	if strings.HasPrefix(key, "big.") {
 		ws.keys["BigVal"] = true
 	}
@@ -71,7 +72,18 @@ func (e *Engine) intrinsic(fr *Frame, st *State, ins ssa.Instruction, key string
 	if v, ok := e.syncMapOp(fr, st, ins, key, args, resType); ok {
 		return v, true
 	}
+	if isLruKey(key) {
+		if v, ok := e.lruOp(fr, st, ins, key, args, resType); ok {
+			return v, true
+		}
+		unsupp("lru operation %s in this form", key)
+	}
 	if key == "sync.(*Map).Range" && len(args) == 2 && args[1].Clo != nil {
+		if cc := e.closureContract(args[1].Clo.Fn.(*ssa.Function)); cc != nil && len(cc.IterInvs) > 0 {
+			if id, ok := syncMapID(args[0]); ok {
+				return e.syncMapRange(fr, st, ins, id, args[1].Clo, cc), true
+			}
+		}
 		// the callback runs an unknown number of times: forget everything it may write
 		ci := 1
 		cfn := args[ci].Clo.Fn.(*ssa.Function)
@@ -270,8 +282,9 @@ func (e *Engine) callbackIteration(fr *Frame, st *State, ins ssa.Instruction, ke
 	cfn := clo.Fn.(*ssa.Function)
 	cc := e.closureContract(cfn)
 	fnKey := funcKey(fr.fn)
+	encl := enclosingLoop(fr, ins)
 	envOf := func(s *State) *SpecEnv {
-		env := e.invEnv(fr, s, nil)
+		env := e.invEnv(fr, s, encl)
 		return env
 	}
 	var invs []*Clause
@@ -404,4 +417,105 @@ func (e *Engine) syncMapOp(fr *Frame, st *State, ins ssa.Instruction, key string
 		return Val{Fs: []Val{}}, true
 	}
 	return Val{}, false
+}
+
+// syncMapRange models m.Range(f) for a sync.Map of the finite-map model when the callback carries iteration
+// invariants (`closure N` + `invariant`, which may use visited(k) - key k has been handed to f). The invariants are
+// proved for the empty visited set at the call and after one arbitrary run of f on an arbitrary key of the map that
+// has not been visited, from any state satisfying them; afterwards they are assumed, together with "every key of the
+// map has been visited" when f returns true on every path (Range stops at the first false). Assumes the callback
+// does not store or delete in the map it ranges over (a key stored concurrently may or may not be visited in Go).
+func (e *Engine) syncMapRange(fr *Frame, st *State, ins ssa.Instruction, id *Term, clo *Closure, cc *Contract) Val {
+	cfn := clo.Fn.(*ssa.Function)
+	fnKey := funcKey(fr.fn)
+	domS, valS := smSorts()
+	vcell := e.newCell(st, scalar(ConstArr(arrSort(SInt, SBool), False())))
+	encl := enclosingLoop(fr, ins)
+	envOf := func(s *State) *SpecEnv {
+		env := e.invEnv(fr, s, encl)
+		env.rngCell = vcell
+		return env
+	}
+	invs := cc.IterInvs
+	for i, inv := range invs {
+		g := envOf(st).evalBool(inv.E)
+		e.emit(&Obligation{Kind: "inv-init", Fn: fnKey, Label: fmt.Sprintf("callback-Range:%s", orStr(inv.Label, fmt.Sprint(i+1))),
+			PC: st.pc, Goal: g, Src: inv.Src, Line: inv.Line, Trace: st.trace})
+	}
+	ws := newWriteSet()
+	sub := &Frame{fn: cfn, cellOf: map[*ssa.Alloc]int{}, free: clo.Bindings}
+	e.blocksWrites(sub, cfn.Blocks, ws, fr.depth+1, map[*ssa.Function]bool{cfn: true})
+	if ws.all {
+		restore := e.spareForWrites(st, ws)
+		st.havocAll()
+		restore()
+	}
+	for k := range ws.keys {
+		st.havocKey(k)
+	}
+	for c := range ws.cells {
+		if old, ok := st.cells[c]; ok {
+			st.cells[c] = e.havocVal(st, old, e.cellType(fr, c))
+		}
+	}
+	st.cells[vcell] = scalar(Fresh("smvisited", arrSort(SInt, SBool)))
+	st.rebaseAlloc()
+	for _, inv := range invs {
+		st.assume(envOf(st).evalBool(inv.E))
+	}
+	// one arbitrary run on an unvisited key of the map
+	body := st.clone()
+	k := Fresh("smk", SInt)
+	dom := body.heapGet("SM:dom", domS)
+	body.assume(Select(Select(dom, id), k))
+	body.assume(Not(Select(body.cells[vcell].T, k)))
+	ktag := Fresh("smktag", SInt)
+	body.assume(Ne(ktag, IntLit(0)))
+	kv := Val{Fs: []Val{{T: ktag}, {T: k}}}
+	vv := Val{Fs: []Val{{T: Select(Select(body.heapGet("SM:tag", valS), id), k)}, {T: Select(Select(body.heapGet("SM:val", valS), id), k)}}}
+	domBefore := Select(dom, id)
+	nf := e.newFrame(cfn, fr, cc)
+	nf.free = clo.Bindings
+	outs := e.execFunc(nf, body, []Val{kv, vv})
+	alwaysTrue := true
+	for _, o := range outs {
+		if o.panics || o.st.dead {
+			continue
+		}
+		if len(o.results) != 1 || o.results[0].T == nil || o.results[0].T.String() != True().String() {
+			alwaysTrue = false
+		}
+		// the callback must not change which keys the ranged map holds
+		e.emit(&Obligation{Kind: "inv-step", Fn: fnKey, Label: "callback-Range:ranged-map-keeps-its-keys",
+			PC: o.st.pc, Goal: Eq(Select(o.st.heapGet("SM:dom", domS), id), domBefore), Trace: o.st.trace})
+		o.st.cells[vcell] = scalar(Store(o.st.cells[vcell].T, k, True()))
+		for i, inv := range invs {
+			g := envOf(o.st).evalBool(inv.E)
+			e.emit(&Obligation{Kind: "inv-step", Fn: fnKey, Label: fmt.Sprintf("callback-Range:%s", orStr(inv.Label, fmt.Sprint(i+1))),
+				PC: o.st.pc, Goal: g, Src: inv.Src, Line: inv.Line, Trace: o.st.trace})
+		}
+	}
+	if alwaysTrue {
+		q := BoundVar("smq", SInt)
+		sel := Select(Select(st.heapGet("SM:dom", domS), id), q)
+		st.assume(Forall([]*Term{q}, Implies(sel, Select(st.cells[vcell].T, q)), sel))
+	} else {
+		e.note("callback of sync.Map.Range in " + fnKey + " may return false: nothing is assumed about which keys were visited")
+	}
+	return Val{Fs: []Val{}}
+}
+
+// enclosingLoop is the innermost loop of the frame's function that contains the instruction (nil: none), so that
+// iteration invariants of a callback may use entry(e), #i and visited(k) of the loop the call stands in.
+func enclosingLoop(fr *Frame, ins ssa.Instruction) *Loop {
+	if ins == nil || fr == nil {
+		return nil
+	}
+	var best *Loop
+	for _, l := range fr.loops {
+		if l.Blocks[ins.Block()] && (best == nil || len(l.Blocks) < len(best.Blocks)) {
+			best = l
+		}
+	}
+	return best
 }
